@@ -12,11 +12,11 @@ Driver for stream `fees` (C07). One op per line, one observation per line.
   wcost <base> <gorgon> <inv-hex> <ver-hex>  -> halt <datoshi> <depth> | fault   (`runWitness`, no limit, every signature valid)
   vw <base> <maxvergas> <gorgon> <hashok> <gas> <pairs-hex (key‖sig, 97 bytes each)> <inv-hex> <ver-hex>
                                              -> ok <gas> | invsig <gas> | fail   (`verifyWitness`)
-  admit <chain> <rec> <tx> <signers> <attrs> <pool>   -> ok | err:<class>      (`Admission.admit`)
+  admit <chain> <rec> <tx> <signers> <attrs> <pool>   -> ok | err:<class>      (`Admission.admitWire`)
      chain   := height maxVUBInc maxBlockSysFee feePerByte base maxVerGas mtb gorgon p2p reserved notaryActive
                 feeHP feeOR feeNVB feeCF feeNA committee oracle|- notary nblocked acc*
      rec     := N | B | T | S index k (acc idx)^k
-     tx      := scriptOk sysFee netFee vub size
+     tx      := version scriptLen scriptOk sysFee netFee vub size
      signers := n (acc scopeNone wit)^n     wit := W hashOk pairs inv ver | M | Q cost o|i|f
      attrs   := k attr^k   attr := HP | OR scriptOk requestOk gasForResponse | NVB h | CF hashid onchain | NA nkeys | OT typ
      pool    := dup conflictsAttrErr balance feeSum oracleErr full
@@ -82,14 +82,13 @@ def pRec : P Rec := fun ts => do
     pure (.stub idx l, r)
   else none
 
-def pWit (verifyOf : Bytes → Bytes → Bytes → Bool) : P Wit := fun ts => do
+def pWit : P Wit := fun ts => do
   let (t, r) ← pTok ts
   if t == "W" then do
     let (hok, r) ← pBit r
     let (_pairs, r) ← pHexB r
     let (i, r) ← pHexB r
     let (v, r) ← pHexB r
-    let _ := verifyOf
     pure (.std hok i v, r)
   else if t == "M" then pure (.missing, r)
   else if t == "Q" then do
@@ -108,7 +107,7 @@ def collectPairs : List String → Bytes
 def pSigner : P Signer := fun ts => do
   let (acc, r) ← pNat ts
   let (sn, r) ← pBit r
-  let (w, r) ← pWit (fun _ _ _ => true) r
+  let (w, r) ← pWit r
   pure (⟨acc, sn, w⟩, r)
 
 def pAttr : P (Attr × Option (Nat × Bool)) := fun ts => do
@@ -135,7 +134,7 @@ def pAttr : P (Attr × Option (Nat × Bool)) := fun ts => do
   else none
 
 def errName : Err → String
-  | .policySysFee => "policy-sysfee" | .invalidScript => "invalid-script" | .expired => "expired"
+  | .malformed => "malformed" | .policySysFee => "policy-sysfee" | .invalidScript => "invalid-script" | .expired => "expired"
   | .notYetValid => "not-yet-valid" | .policyBlocked => "policy-blocked" | .tooBig => "too-big"
   | .smallNetFee => "small-netfee" | .alreadyExists => "already-exists" | .hasConflicts => "has-conflicts"
   | .witness => "witness" | .invalidAttr => "invalid-attr" | .poolDup => "pool-dup"
@@ -167,6 +166,8 @@ def runAdmit (ts : List String) : Option String := do
   let (notary, r) ← pNat r
   let (blocked, r) ← pCounted pNat r
   let (rec, r) ← pRec r
+  let (version, r) ← pNat r
+  let (scriptLen, r) ← pNat r
   let (scriptOk, r) ← pBit r
   let (sysFee, r) ← pNat r
   let (netFee, r) ← pNat r
@@ -191,10 +192,10 @@ def runAdmit (ts : List String) : Option String := do
                      notaryActive := notaryActive, attrFee := attrFee, blocked := fun a => blocked.contains a,
                      lookup := lookup, committee := committee, oracleHash := oracle, notary := notary,
                      validKey := keyOk, verify := fun k sg => ps.contains (k ++ sg) }
-  let t : Tx := { hash := 0, scriptOk := scriptOk, sysFee := sysFee, netFee := netFee, validUntil := vub, size := size,
+  let t : Tx := { hash := 0, version := version, scriptLen := scriptLen, scriptOk := scriptOk, sysFee := sysFee, netFee := netFee, validUntil := vub, size := size,
                   signers := signers, attrs := attrs.map (·.1) }
   let p : Pool := { has := fun _ => dup, conflictsAttrErr := cae, balance := balance, feeSum := feeSum, oracleErr := oerr, full := full }
-  match admit c p t with
+  match admitWire c p t with
   | none => pure "ok"
   | some e => pure s!"err:{errName e}"
 
